@@ -141,6 +141,11 @@ func Blocked() int { return 0 }
 
 func Finish() {}
 
+// Stub redirects calls of the named function to fn under the engine (used
+// for third-party code that needs reflection, e.g. bindnode).  Natively the
+// real function runs.
+func Stub(name string, fn any) {}
+
 // ReplayMain runs the entry named in the replay file and reports the result
 // on stdout in a form the engine parses.  It returns true when the run ended
 // without an assertion failure or panic.
